@@ -313,7 +313,7 @@ class ToolsPart(Base):
     """stats / compare / unphase / split / haplotagphase on generated files"""
     name = "tools"
     budget = {"quick": 96, "thorough": 800}
-    nruns = 2
+    nruns = 3
 
     def gen(self, draw):
         tool = draw(st.sampled_from(["stats", "compare", "unphase", "split", "haplotagphase", "find_snv_candidates"]))
@@ -333,6 +333,14 @@ class ToolsPart(Base):
             # the list written below always has four columns, so --only-largest-block (ties between phase sets of a
             # chromosome are frequent in these lists) can be drawn freely
             c["split"]["opts"]["only_largest"] = draw(st.booleans())
+            if c["split"]["opts"]["only_largest"] and draw(st.booleans()):
+                # tie by construction: the tagged entries alternate between two phase sets of one chromosome
+                tagged = [e for e in c["split"]["entries"] if e[1] != "none"]
+                for i, e in enumerate(tagged[:len(tagged) // 2 * 2]):
+                    e[2], e[3] = (100, "chr1") if i % 2 == 0 else (200, "chr1")
+                for e in tagged[len(tagged) // 2 * 2:]:
+                    e[1] = "none"
+                c["split"]["tie"] = len(tagged) >= 2
         elif tool == "find_snv_candidates":
             g = P.gen_case(draw, nsamples=(1, 1), ncontigs=(1, 2), length=(300, 600), depth=(4, 10), read_len=(60, 250), paired_share=10,
                            clip_share=0, eqx_share=0, kinds=("snv",))
